@@ -19,7 +19,7 @@ func (u *memoryManagementUnit) fetchCacheLine(addr int32, cacheLineSize int32) (
 	alignedAddr := getAlignedMemoryAddress([]int32{addr})
 	memory := make([]int8, 0, cacheLineSize)
 	for i := 0; i < int(cacheLineSize); i++ {
-		if int(alignedAddr)+i >= len(u.ctx.Memory) {
+		if int(alignedAddr)+i < 0 || int(alignedAddr)+i >= len(u.ctx.Memory) {
 			memory = append(memory, 0)
 		} else {
 			memory = append(memory, u.ctx.Memory[int(alignedAddr)+i])
@@ -30,6 +30,9 @@ func (u *memoryManagementUnit) fetchCacheLine(addr int32, cacheLineSize int32) (
 
 func (u *memoryManagementUnit) writeToMemory(addr comp.AlignedAddress, data []int8) {
 	for i, v := range data {
+		if int(addr)+i < 0 {
+			continue
+		}
 		if int(addr)+i >= len(u.ctx.Memory) {
 			return
 		}
